@@ -1,258 +1,15 @@
-// C19 — keys produced by harness/c19_atomic.cpp on the unchanged tree (identical set for seeds 1 2 3 7 12345 quick and seed 1
-// thorough, /repo at 41544c56e), each with the root cause it was traced to (D1..D12 are described in the author's
-// final report; X = abort inside the library on an invalid-argument variant). Documentation only: nothing includes
-// this file. It is meant to be turned into known_findings.json entries (or to vanish with the corresponding fix:).
+// C19 — root-cause keys the harness (harness/c19_atomic.cpp, emitDiff) can emit for the OPEN known findings; cause,
+// file:line and reproducer of each are in reports/C19_open_findings.json. Documentation only: nothing includes this file.
+// Anything that does not match one of these narrow rules keeps a fine-grained key C19:<calculator>:<kind>:<db>-<what>.
+//   C19:D2:info-expansion-left-in-dbin               F / NOSTAT columns migrated into the input Db are never removed
+//   C19:D4:anam-transform-columns-outside-bookkeeping CalcAnamTransform output columns survive a failure
+//   C19:D5:anam-named-transform-sets-Z-before-running AAnam::rawToGaussian/gaussianToRaw/normalScore change Z roles, then fail
+//   C19:D7:preexisting-SIMU-role-lost                 a column that had locator SIMU loses it (simulation calculators)
+//   C19:D8:xvalid-varz-named-after-estimate           xvalid names the varz column after the estimate column
+//   C19:D9:postprocess-failure:output-roles-cleared   failpoint calc.after_postprocess: roles taken by the naming convention stay taken
+//   C19:D10:simpgs-working-columns-left-on-error      simpgs error exit keeps its working columns
+//   C19:D12:dgm-failure-leaves-X-roles-moved          DGM failure: X roles not given back (input Db left without coordinates)
+// plus the driver-made crash keys of the abort-prone invalid-argument variants (AVOID_* switches in the harness).
+// Fixed since the first round (silent now): D1 krigtest, D3 temporaries not rolled back, D6 simfft nbsimu, D11 centring
+// ignoring a failed creation, X3 IMAGE neighbourhood, X5/X6 Bayesian pre-calculations.
 #pragma once
-static const char* const C19_FINDINGS[][2] = {
-  {"D1", "C19:krigtest:invalid=iech-out-of-range:dbout-locators:Z"},
-  {"D1", "C19:krigtest:invalid=iech-out-of-range:dbout-role-table:Z"},
-  {"D1", "C19:krigtest:invalid=image-neigh:dbout-locators:Z"},
-  {"D1", "C19:krigtest:invalid=image-neigh:dbout-role-table:Z"},
-  {"D1", "C19:krigtest:success:dbout-locators:Z"},
-  {"D1", "C19:krigtest:success:dbout-role-table:Z"},
-  {"D10", "C19:simpgs-cond:failpoint=calc.after_check:dbin-extra-columns"},
-  {"D10", "C19:simpgs-cond:failpoint=calc.after_check:dbout-extra-columns"},
-  {"D10", "C19:simpgs-cond:failpoint=calc.after_postprocess:dbin-extra-columns"},
-  {"D10", "C19:simpgs-cond:failpoint=calc.after_postprocess:dbout-extra-columns"},
-  {"D10", "C19:simpgs-cond:failpoint=calc.after_preprocess:dbin-extra-columns"},
-  {"D10", "C19:simpgs-cond:failpoint=calc.after_preprocess:dbout-extra-columns"},
-  {"D10", "C19:simpgs-cond:failpoint=calc.after_run:dbin-extra-columns"},
-  {"D10", "C19:simpgs-cond:failpoint=calc.after_run:dbout-extra-columns"},
-  {"D10", "C19:simpgs-cond:invalid=nbtuba-zero:dbin-extra-columns"},
-  {"D10", "C19:simpgs-cond:invalid=nbtuba-zero:dbout-extra-columns"},
-  {"D10", "C19:simpgs-nc:failpoint=calc.after_check:dbout-extra-columns"},
-  {"D10", "C19:simpgs-nc:failpoint=calc.after_postprocess:dbout-extra-columns"},
-  {"D10", "C19:simpgs-nc:failpoint=calc.after_preprocess:dbout-extra-columns"},
-  {"D10", "C19:simpgs-nc:failpoint=calc.after_run:dbout-extra-columns"},
-  {"D10", "C19:simpgs-nc:invalid=nbtuba-zero:dbout-extra-columns"},
-  {"D11", "C19:kriging-dgm:failpoint=calc.addvar.db2db:claimed-success:dbin-extra-columns"},
-  {"D11", "C19:kriging-dgm:failpoint=calc.addvar.db2db:claimed-success:dbin-values"},
-  {"D11", "C19:kriging-dgm:failpoint=calc.addvar.db2db:failure-not-reported"},
-  {"D11", "C19:simtub-dgm:failpoint=calc.addvar.db2db:claimed-success:dbin-extra-columns"},
-  {"D11", "C19:simtub-dgm:failpoint=calc.addvar.db2db:claimed-success:dbin-locators:SIMU"},
-  {"D11", "C19:simtub-dgm:failpoint=calc.addvar.db2db:claimed-success:dbin-values"},
-  {"D11", "C19:simtub-dgm:failpoint=calc.addvar.db2db:failure-not-reported"},
-  {"D12", "C19:kriging-dgm:failpoint=calc.after_preprocess:dbin-extra-columns"},
-  {"D12", "C19:kriging-dgm:failpoint=calc.after_preprocess:dbin-locators:X"},
-  {"D12", "C19:kriging-dgm:failpoint=calc.after_run:dbin-extra-columns"},
-  {"D12", "C19:kriging-dgm:failpoint=calc.after_run:dbin-locators:X"},
-  {"D12", "C19:kriging-dgm:invalid=sill-not-one:dbin-extra-columns"},
-  {"D12", "C19:kriging-dgm:invalid=sill-not-one:dbin-locators:X"},
-  {"D12", "C19:simtub-dgm:failpoint=calc.after_preprocess:dbin-extra-columns"},
-  {"D12", "C19:simtub-dgm:failpoint=calc.after_preprocess:dbin-locators:X"},
-  {"D12", "C19:simtub-dgm:failpoint=calc.after_run:dbin-extra-columns"},
-  {"D12", "C19:simtub-dgm:failpoint=calc.after_run:dbin-locators:X"},
-  {"D12", "C19:simtub-dgm:invalid=nbtuba-zero:dbin-extra-columns"},
-  {"D12", "C19:simtub-dgm:invalid=nbtuba-zero:dbin-locators:X"},
-  {"D2", "C19:kribayes:accepted-invalid:dbin-extra-columns"},
-  {"D2", "C19:kribayes:failpoint=calc.addvar.db2db:dbin-extra-columns"},
-  {"D2", "C19:kribayes:failpoint=calc.after_postprocess:dbin-extra-columns"},
-  {"D2", "C19:kribayes:failpoint=calc.after_preprocess:dbin-extra-columns"},
-  {"D2", "C19:kribayes:failpoint=calc.after_run:dbin-extra-columns"},
-  {"D2", "C19:kribayes:success-name-collision:dbin-extra-columns"},
-  {"D2", "C19:kribayes:success:dbin-extra-columns"},
-  {"D2", "C19:krigcell:failpoint=calc.addvar.db2db:dbin-extra-columns"},
-  {"D2", "C19:krigcell:failpoint=calc.after_postprocess:dbin-extra-columns"},
-  {"D2", "C19:krigcell:failpoint=calc.after_preprocess:dbin-extra-columns"},
-  {"D2", "C19:krigcell:failpoint=calc.after_run:dbin-extra-columns"},
-  {"D2", "C19:krigcell:invalid=no-ndiscs:dbin-extra-columns"},
-  {"D2", "C19:krigcell:success-name-collision:dbin-extra-columns"},
-  {"D2", "C19:krigcell:success:dbin-extra-columns"},
-  {"D2", "C19:kriggam:accepted-invalid:dbin-extra-columns"},
-  {"D2", "C19:kriggam:failpoint=calc.addvar.db2db:dbin-extra-columns"},
-  {"D2", "C19:kriggam:failpoint=calc.after_postprocess:dbin-extra-columns"},
-  {"D2", "C19:kriggam:failpoint=calc.after_preprocess:dbin-extra-columns"},
-  {"D2", "C19:kriggam:failpoint=calc.after_run:dbin-extra-columns"},
-  {"D2", "C19:kriggam:invalid=sill-above-one:dbin-extra-columns"},
-  {"D2", "C19:kriggam:invalid=two-variables:dbin-extra-columns"},
-  {"D2", "C19:kriggam:success-name-collision:dbin-extra-columns"},
-  {"D2", "C19:kriggam:success:dbin-extra-columns"},
-  {"D2", "C19:kriging-dgm:failpoint=calc.addvar.db2db:dbin-extra-columns"},
-  {"D2", "C19:kriging-dgm:failpoint=calc.after_postprocess:dbin-extra-columns"},
-  {"D2", "C19:kriging-dgm:success-name-collision:dbin-extra-columns"},
-  {"D2", "C19:kriging-dgm:success:dbin-extra-columns"},
-  {"D2", "C19:kriging:accepted-invalid:dbin-extra-columns"},
-  {"D2", "C19:kriging:accepted-invalid:dbin-locators:F"},
-  {"D2", "C19:kriging:failpoint=calc.addvar.db2db:dbin-extra-columns"},
-  {"D2", "C19:kriging:failpoint=calc.addvar.db2db@nested:dbin-extra-columns"},
-  {"D2", "C19:kriging:failpoint=calc.after_check@nested:dbin-extra-columns"},
-  {"D2", "C19:kriging:failpoint=calc.after_postprocess:dbin-extra-columns"},
-  {"D2", "C19:kriging:failpoint=calc.after_postprocess@nested:dbin-extra-columns"},
-  {"D2", "C19:kriging:failpoint=calc.after_preprocess:dbin-extra-columns"},
-  {"D2", "C19:kriging:failpoint=calc.after_preprocess@nested:dbin-extra-columns"},
-  {"D2", "C19:kriging:failpoint=calc.after_run:dbin-extra-columns"},
-  {"D2", "C19:kriging:failpoint=calc.after_run@nested:dbin-extra-columns"},
-  {"D2", "C19:kriging:invalid=block-no-ndiscs:dbin-extra-columns"},
-  {"D2", "C19:kriging:invalid=colcok-bad-rank:dbin-extra-columns"},
-  {"D2", "C19:kriging:invalid=image-neigh:dbin-extra-columns"},
-  {"D2", "C19:kriging:invalid=matLC-bad-shape:dbin-extra-columns"},
-  {"D2", "C19:kriging:success-name-collision:dbin-extra-columns"},
-  {"D2", "C19:kriging:success:dbin-extra-columns"},
-  {"D2", "C19:krigprof:failpoint=calc.addvar.db2db:dbin-extra-columns"},
-  {"D2", "C19:krigprof:failpoint=calc.after_postprocess:dbin-extra-columns"},
-  {"D2", "C19:krigprof:failpoint=calc.after_preprocess:dbin-extra-columns"},
-  {"D2", "C19:krigprof:failpoint=calc.after_run:dbin-extra-columns"},
-  {"D2", "C19:krigprof:invalid=no-code:dbin-extra-columns"},
-  {"D2", "C19:krigprof:invalid=no-verr:dbin-extra-columns"},
-  {"D2", "C19:krigprof:success-name-collision:dbin-extra-columns"},
-  {"D2", "C19:krigprof:success:dbin-extra-columns"},
-  {"D2", "C19:krigtest:failpoint=calc.addvar.db2db:dbin-extra-columns"},
-  {"D2", "C19:krigtest:failpoint=calc.after_postprocess:dbin-extra-columns"},
-  {"D2", "C19:krigtest:failpoint=calc.after_preprocess:dbin-extra-columns"},
-  {"D2", "C19:krigtest:failpoint=calc.after_run:dbin-extra-columns"},
-  {"D2", "C19:krigtest:invalid=iech-out-of-range:dbin-extra-columns"},
-  {"D2", "C19:krigtest:invalid=image-neigh:dbin-extra-columns"},
-  {"D2", "C19:krigtest:success:dbin-extra-columns"},
-  {"D2", "C19:simbayes:accepted-invalid:dbin-extra-columns"},
-  {"D2", "C19:simbayes:failpoint=calc.after_postprocess:dbin-extra-columns"},
-  {"D2", "C19:simbayes:success-name-collision:dbin-extra-columns"},
-  {"D2", "C19:simbayes:success:dbin-extra-columns"},
-  {"D2", "C19:simtub-cond:failpoint=calc.after_postprocess:dbin-extra-columns"},
-  {"D2", "C19:simtub-cond:failpoint=calc.after_postprocess@nested:dbin-extra-columns"},
-  {"D2", "C19:simtub-cond:success-name-collision:dbin-extra-columns"},
-  {"D2", "C19:simtub-cond:success:dbin-extra-columns"},
-  {"D2", "C19:simtub-dgm:failpoint=calc.after_postprocess:dbin-extra-columns"},
-  {"D2", "C19:simtub-dgm:success-name-collision:dbin-extra-columns"},
-  {"D2", "C19:simtub-dgm:success:dbin-extra-columns"},
-  {"D2", "C19:test_neigh:failpoint=calc.addvar.db2db:dbin-extra-columns"},
-  {"D2", "C19:test_neigh:failpoint=calc.after_postprocess:dbin-extra-columns"},
-  {"D2", "C19:test_neigh:failpoint=calc.after_preprocess:dbin-extra-columns"},
-  {"D2", "C19:test_neigh:failpoint=calc.after_run:dbin-extra-columns"},
-  {"D2", "C19:test_neigh:success-name-collision:dbin-extra-columns"},
-  {"D2", "C19:test_neigh:success:dbin-extra-columns"},
-  {"D3", "C19:dbg2gShrink:failpoint=calc.after_preprocess:dbout-extra-columns"},
-  {"D3", "C19:dbg2gShrink:failpoint=calc.after_run:dbout-extra-columns"},
-  {"D3", "C19:krigtest:failpoint=calc.addvar.db2db:dbout-extra-columns"},
-  {"D3", "C19:krigtest:failpoint=calc.after_preprocess:dbout-extra-columns"},
-  {"D3", "C19:krigtest:failpoint=calc.after_run:dbout-extra-columns"},
-  {"D3", "C19:krigtest:invalid=image-neigh:dbout-extra-columns"},
-  {"D3b", "C19:simbayes:failpoint=calc.addvar.db2db:dbin-extra-columns"},
-  {"D3b", "C19:simbayes:failpoint=calc.after_preprocess:dbin-extra-columns"},
-  {"D3b", "C19:simbayes:failpoint=calc.after_run:dbin-extra-columns"},
-  {"D3b", "C19:simtub-cond:failpoint=calc.addvar.db2db:dbin-extra-columns"},
-  {"D3b", "C19:simtub-cond:failpoint=calc.addvar.db2db@nested:dbin-extra-columns"},
-  {"D3b", "C19:simtub-cond:failpoint=calc.after_check@nested:dbin-extra-columns"},
-  {"D3b", "C19:simtub-cond:failpoint=calc.after_preprocess:dbin-extra-columns"},
-  {"D3b", "C19:simtub-cond:failpoint=calc.after_preprocess@nested:dbin-extra-columns"},
-  {"D3b", "C19:simtub-cond:failpoint=calc.after_run:dbin-extra-columns"},
-  {"D3b", "C19:simtub-cond:failpoint=calc.after_run@nested:dbin-extra-columns"},
-  {"D3b", "C19:simtub-cond:invalid=nbtuba-zero:dbin-extra-columns"},
-  {"D3b", "C19:simtub-dgm:failpoint=calc.addvar.db2db:dbin-extra-columns"},
-  {"D4", "C19:ConditionalExpectation:failpoint=calc.after_postprocess:dbin-extra-columns"},
-  {"D4", "C19:ConditionalExpectation:failpoint=calc.after_preprocess:dbin-extra-columns"},
-  {"D4", "C19:ConditionalExpectation:failpoint=calc.after_run:dbin-extra-columns"},
-  {"D4", "C19:DisjunctiveKriging:failpoint=calc.after_postprocess:dbin-extra-columns"},
-  {"D4", "C19:DisjunctiveKriging:failpoint=calc.after_preprocess:dbin-extra-columns"},
-  {"D4", "C19:DisjunctiveKriging:failpoint=calc.after_run:dbin-extra-columns"},
-  {"D4", "C19:UniformConditioning:failpoint=calc.after_postprocess:dbin-extra-columns"},
-  {"D4", "C19:UniformConditioning:failpoint=calc.after_preprocess:dbin-extra-columns"},
-  {"D4", "C19:UniformConditioning:failpoint=calc.after_run:dbin-extra-columns"},
-  {"D4", "C19:gaussianToRaw:failpoint=calc.after_postprocess:dbin-extra-columns"},
-  {"D4", "C19:gaussianToRaw:failpoint=calc.after_preprocess:dbin-extra-columns"},
-  {"D4", "C19:gaussianToRaw:failpoint=calc.after_run:dbin-extra-columns"},
-  {"D4", "C19:normalScore:failpoint=calc.after_postprocess:dbin-extra-columns"},
-  {"D4", "C19:normalScore:failpoint=calc.after_preprocess:dbin-extra-columns"},
-  {"D4", "C19:normalScore:failpoint=calc.after_run:dbin-extra-columns"},
-  {"D4", "C19:rawToFactor:failpoint=calc.after_postprocess:dbin-extra-columns"},
-  {"D4", "C19:rawToFactor:failpoint=calc.after_preprocess:dbin-extra-columns"},
-  {"D4", "C19:rawToFactor:failpoint=calc.after_run:dbin-extra-columns"},
-  {"D4", "C19:rawToGaussian:failpoint=calc.after_postprocess:dbin-extra-columns"},
-  {"D4", "C19:rawToGaussian:failpoint=calc.after_preprocess:dbin-extra-columns"},
-  {"D4", "C19:rawToGaussian:failpoint=calc.after_run:dbin-extra-columns"},
-  {"D4", "C19:rawToGaussianByLocator:failpoint=calc.after_postprocess:dbin-extra-columns"},
-  {"D4", "C19:rawToGaussianByLocator:failpoint=calc.after_preprocess:dbin-extra-columns"},
-  {"D4", "C19:rawToGaussianByLocator:failpoint=calc.after_run:dbin-extra-columns"},
-  {"D5", "C19:gaussianToRaw:failpoint=calc.after_check:dbin-locators:Z"},
-  {"D5", "C19:gaussianToRaw:failpoint=calc.after_preprocess:dbin-locators:Z"},
-  {"D5", "C19:gaussianToRaw:failpoint=calc.after_run:dbin-locators:Z"},
-  {"D5", "C19:gaussianToRaw:invalid=anam-not-continuous:dbin-locators:Z"},
-  {"D5", "C19:normalScore:failpoint=calc.after_check:dbin-locators:Z"},
-  {"D5", "C19:normalScore:failpoint=calc.after_preprocess:dbin-locators:Z"},
-  {"D5", "C19:normalScore:failpoint=calc.after_run:dbin-locators:Z"},
-  {"D5", "C19:normalScore:invalid=anam-not-continuous:dbin-locators:Z"},
-  {"D5", "C19:rawToGaussian:failpoint=calc.after_check:dbin-locators:Z"},
-  {"D5", "C19:rawToGaussian:failpoint=calc.after_preprocess:dbin-locators:Z"},
-  {"D5", "C19:rawToGaussian:failpoint=calc.after_run:dbin-locators:Z"},
-  {"D5", "C19:rawToGaussian:invalid=anam-not-continuous:dbin-locators:Z"},
-  {"D6", "C19:simfft:success-name-collision:dbout-new-column-count"},
-  {"D6", "C19:simfft:success:dbout-new-column-count"},
-  {"D7", "C19:simbayes:accepted-invalid:dbin-locators:SIMU"},
-  {"D7", "C19:simbayes:failpoint=calc.addvar.db2db:dbin-locators:SIMU"},
-  {"D7", "C19:simbayes:failpoint=calc.after_postprocess:dbin-locators:SIMU"},
-  {"D7", "C19:simbayes:failpoint=calc.after_postprocess:dbout-locators:SIMU"},
-  {"D7", "C19:simbayes:failpoint=calc.after_preprocess:dbin-locators:SIMU"},
-  {"D7", "C19:simbayes:failpoint=calc.after_preprocess:dbout-locators:SIMU"},
-  {"D7", "C19:simbayes:failpoint=calc.after_run:dbin-locators:SIMU"},
-  {"D7", "C19:simbayes:failpoint=calc.after_run:dbout-locators:SIMU"},
-  {"D7", "C19:simbayes:success-name-collision:dbin-locators:SIMU"},
-  {"D7", "C19:simbayes:success:dbin-locators:SIMU"},
-  {"D7", "C19:simfft:failpoint=calc.after_postprocess:dbin-locators:SIMU"},
-  {"D7", "C19:simfft:failpoint=calc.after_preprocess:dbin-locators:SIMU"},
-  {"D7", "C19:simfft:failpoint=calc.after_run:dbin-locators:SIMU"},
-  {"D7", "C19:simtub-cond:failpoint=calc.addvar.db2db:dbin-locators:SIMU"},
-  {"D7", "C19:simtub-cond:failpoint=calc.after_postprocess:dbin-locators:SIMU"},
-  {"D7", "C19:simtub-cond:failpoint=calc.after_postprocess:dbout-locators:SIMU"},
-  {"D7", "C19:simtub-cond:failpoint=calc.after_preprocess:dbin-locators:SIMU"},
-  {"D7", "C19:simtub-cond:failpoint=calc.after_preprocess:dbout-locators:SIMU"},
-  {"D7", "C19:simtub-cond:failpoint=calc.after_run:dbin-locators:SIMU"},
-  {"D7", "C19:simtub-cond:failpoint=calc.after_run:dbout-locators:SIMU"},
-  {"D7", "C19:simtub-cond:invalid=nbtuba-zero:dbin-locators:SIMU"},
-  {"D7", "C19:simtub-cond:invalid=nbtuba-zero:dbout-locators:SIMU"},
-  {"D7", "C19:simtub-cond:success-name-collision:dbin-locators:SIMU"},
-  {"D7", "C19:simtub-cond:success:dbin-locators:SIMU"},
-  {"D7", "C19:simtub-dgm:failpoint=calc.addvar.db2db:dbin-locators:SIMU"},
-  {"D7", "C19:simtub-dgm:failpoint=calc.after_postprocess:dbin-locators:SIMU"},
-  {"D7", "C19:simtub-dgm:failpoint=calc.after_postprocess:dbout-locators:SIMU"},
-  {"D7", "C19:simtub-dgm:failpoint=calc.after_preprocess:dbin-locators:SIMU"},
-  {"D7", "C19:simtub-dgm:failpoint=calc.after_preprocess:dbout-locators:SIMU"},
-  {"D7", "C19:simtub-dgm:failpoint=calc.after_run:dbin-locators:SIMU"},
-  {"D7", "C19:simtub-dgm:failpoint=calc.after_run:dbout-locators:SIMU"},
-  {"D7", "C19:simtub-dgm:invalid=nbtuba-zero:dbin-locators:SIMU"},
-  {"D7", "C19:simtub-dgm:invalid=nbtuba-zero:dbout-locators:SIMU"},
-  {"D7", "C19:simtub-dgm:success-name-collision:dbin-locators:SIMU"},
-  {"D7", "C19:simtub-dgm:success:dbin-locators:SIMU"},
-  {"D7", "C19:simtub-nc:failpoint=calc.after_postprocess:dbout-locators:SIMU"},
-  {"D7", "C19:simtub-nc:failpoint=calc.after_preprocess:dbout-locators:SIMU"},
-  {"D7", "C19:simtub-nc:failpoint=calc.after_run:dbout-locators:SIMU"},
-  {"D7", "C19:simtub-nc:invalid=nbtuba-zero:dbout-locators:SIMU"},
-  {"D8", "C19:xvalid:success:dbout-new-column-qualifier:esterr"},
-  {"D8", "C19:xvalid:success:dbout-new-column-qualifier:estim"},
-  {"D9", "C19:ConditionalExpectation:failpoint=calc.after_postprocess:dbin-locators:Z"},
-  {"D9", "C19:DisjunctiveKriging:failpoint=calc.after_postprocess:dbin-locators:Z"},
-  {"D9", "C19:UniformConditioning:failpoint=calc.after_postprocess:dbin-locators:Z"},
-  {"D9", "C19:dbRegression:failpoint=calc.after_postprocess:dbin-locators:Z"},
-  {"D9", "C19:dbStatisticsOnGrid:failpoint=calc.after_postprocess:dbout-locators:Z"},
-  {"D9", "C19:dbg2gCopy:failpoint=calc.after_postprocess:dbout-locators:Z"},
-  {"D9", "C19:dbg2gExpand:failpoint=calc.after_postprocess:dbout-locators:Z"},
-  {"D9", "C19:dbg2gShrink:failpoint=calc.after_postprocess:dbout-locators:Z"},
-  {"D9", "C19:gaussianToRaw:failpoint=calc.after_postprocess:dbin-locators:Z"},
-  {"D9", "C19:kribayes:failpoint=calc.after_postprocess:dbout-locators:Z"},
-  {"D9", "C19:krigcell:failpoint=calc.after_postprocess:dbout-locators:Z"},
-  {"D9", "C19:kriggam:failpoint=calc.after_postprocess:dbout-locators:Z"},
-  {"D9", "C19:kriging-dgm:failpoint=calc.after_postprocess:dbout-locators:Z"},
-  {"D9", "C19:kriging:failpoint=calc.after_postprocess:dbout-locators:Z"},
-  {"D9", "C19:krigprof:failpoint=calc.after_postprocess:dbout-locators:Z"},
-  {"D9", "C19:krigtest:failpoint=calc.after_postprocess:dbout-locators:Z"},
-  {"D9", "C19:krigtest:failpoint=calc.after_postprocess:dbout-role-table:Z"},
-  {"D9", "C19:migrate:failpoint=calc.after_postprocess:dbout-locators:Z"},
-  {"D9", "C19:migrateByAttribute:failpoint=calc.after_postprocess:dbout-locators:Z"},
-  {"D9", "C19:migrateByLocator:failpoint=calc.after_postprocess:dbout-locators:Z"},
-  {"D9", "C19:migrateMulti:failpoint=calc.after_postprocess:dbout-locators:Z"},
-  {"D9", "C19:normalScore:failpoint=calc.after_postprocess:dbin-locators:Z"},
-  {"D9", "C19:rawToFactor:failpoint=calc.after_postprocess:dbin-locators:Z"},
-  {"D9", "C19:rawToGaussian:failpoint=calc.after_postprocess:dbin-locators:Z"},
-  {"D9", "C19:rawToGaussianByLocator:failpoint=calc.after_postprocess:dbin-locators:Z"},
-  {"D9", "C19:simbayes:failpoint=calc.after_postprocess:dbout-locators:Z"},
-  {"D9", "C19:simfft:failpoint=calc.after_postprocess:dbin-locators:Z"},
-  {"D9", "C19:simtub-cond:failpoint=calc.after_postprocess:dbout-locators:Z"},
-  {"D9", "C19:simtub-dgm:failpoint=calc.after_postprocess:dbout-locators:Z"},
-  {"D9", "C19:simtub-nc:failpoint=calc.after_postprocess:dbout-locators:Z"},
-  {"D9", "C19:test_neigh:failpoint=calc.after_postprocess:dbout-locators:Z"},
-  {"D9", "C19:xvalid:failpoint=calc.after_postprocess:dbin-locators:Z"},
-  {"X", "crash:asan-container-overflow:KrigingSystem::_bayesPreCalculations"},
-  {"X", "crash:asan-heap-buffer-overflow:KrigingSystem::_bayesPreCalculations"},
-  {"X", "crash:assert:AMatrixDense::addMatInPlace"},
-  {"X", "crash:assert:AMatrixDense::getValue"},
-  {"X", "crash:ubsan-reference-binding-to-null-pointer-of-type-double:Db::getCoordinatesPerSampleInPlace"},
-  {"X", "crash:ubsan-reference-binding-to-null-pointer-of-type-double:Regression::apply"},
-};
